@@ -22,9 +22,9 @@ Proof. reflexivity. Qed.
 
 Definition chk_fan (fru : N) (x : N * N) : bool :=
   let '(level, loc) := x in
-  exch_eqb (one_exchange "set_fan_level" [arg "fru_id" fru; arg "fan_level" level] (RBytes [0; 0]))
+  exch_ok "set_fan_level" [arg "fru_id" fru; arg "fan_level" level] (RBytes [0; 0])
            (mkReq 44 21 0 [0; fru; level; 0]) (Ok PNone)
-  && exch_eqb (one_exchange "get_fan_level" [arg "fru_id" fru] (RBytes [0; 0; level; loc]))
+  && exch_ok "get_fan_level" [arg "fru_id" fru] (RBytes [0; 0; level; loc])
               (mkReq 44 22 0 [0; fru]) (Ok (PList [PInt (Z.of_N level); PInt (Z.of_N loc)])).
 (* every level with the local level from a boundary set, and every local level with boundary levels *)
 Definition fan_dom : list (N * N) :=
@@ -35,7 +35,7 @@ Proof. vm_cast_no_check (eq_refl true). Qed.
 
 Opaque one_exchange call bmc_handle.
 
-Lemma write_read_fan s fru level loc : List.In fru frus -> List.In (level, loc) fan_dom ->
+Lemma write_read_fan s fru level loc : is_supported "set_fan_level" = true -> is_supported "get_fan_level" = true -> List.In fru frus -> List.In (level, loc) fan_dom ->
   at_ (get s (K_FAN, fru, 0)) 1 = loc ->
   let s1 := put s (K_FAN, fru, 0) [level; loc] in
   exists r1 r2,
@@ -43,24 +43,24 @@ Lemma write_read_fan s fru level loc : List.In fru frus -> List.In (level, loc) 
     call "get_fan_level" [arg "fru_id" fru] s1 = (r2, s1) /\
     same r2 (Ok (PList [PInt (Z.of_N level); PInt (Z.of_N loc)])).
 Proof.
-  intros Hf Hx Hl s1.
+  intros Sw Sr Hf Hx Hl s1.
   pose proof (table2 (fun x fru => chk_fan fru x) frus fan_dom fan_table fru (level, loc) Hf Hx) as C.
   cbv beta in C. unfold chk_fan in C. apply andb_true_iff in C as [W R].
   assert (BW : bmc_handle s (mkReq 44 21 0 [0; fru; level; 0]) = (s1, RBytes [0; 0])).
   { rewrite bmc_set_fan, Hl. reflexivity. }
   assert (BR : bmc_handle s1 (mkReq 44 22 0 [0; fru]) = (s1, RBytes [0; 0; level; loc])).
   { rewrite bmc_get_fan. unfold s1. rewrite get_put_same. reflexivity. }
-  exact (write_then_read "set_fan_level" "get_fan_level" _ _ s s1 _ _ _ _ _ _ W BW R BR).
+  exact (write_then_read "set_fan_level" "get_fan_level" _ _ s s1 _ _ _ _ _ _ Sw Sr W BW R BR).
 Qed.
 
 (* ---- FRU activation policy (no read operation in the API): the state the BMC is left in ---- *)
 Definition policy_bytes (ctrl : N) : N * N :=       (* mask, set *)
   if ctrl =? 0 then (1, 1) else if ctrl =? 1 then (1, 0) else if ctrl =? 2 then (2, 2) else (2, 0).
 Definition chk_policy (fru ctrl : N) : bool :=
-  exch_eqb (one_exchange "set_fru_activation_policy" [arg "fru_id" fru; arg "ctrl" ctrl] (RBytes [0; 0]))
+  exch_ok "set_fru_activation_policy" [arg "fru_id" fru; arg "ctrl" ctrl] (RBytes [0; 0])
            (mkReq 44 10 0 [0; fru; fst (policy_bytes ctrl); snd (policy_bytes ctrl)]) (Ok PNone).
 Definition chk_policy_wrapper (fru : N) (w : string * N) : bool :=
-  exch_eqb (one_exchange (fst w) [arg "fru_id" fru] (RBytes [0; 0]))
+  exch_ok (fst w) [arg "fru_id" fru] (RBytes [0; 0])
            (mkReq 44 10 0 [0; fru; fst (policy_bytes (snd w)); snd (policy_bytes (snd w))]) (Ok PNone).
 Definition policy_wrappers : list (string * N) :=
   [("set_fru_activation_lock", 0); ("clear_fru_activation_lock", 1); ("set_fru_deactivation_lock", 2);
@@ -78,17 +78,17 @@ Proof. reflexivity. Qed.
 Opaque bmc_handle.
 
 (* lock bit (0) / deactivation-lock bit (1) set or cleared, the other bit kept *)
-Lemma write_policy s fru ctrl : fru < 256 -> ctrl < 4 ->
+Lemma write_policy s fru ctrl : is_supported "set_fru_activation_policy" = true -> fru < 256 -> ctrl < 4 ->
   let '(m, v) := policy_bytes ctrl in
   exists r, call "set_fru_activation_policy" [arg "fru_id" fru; arg "ctrl" ctrl] s =
               (r, put s (K_POLICY, fru, 0) [merge_bits 2 (at_ (get s (K_POLICY, fru, 0)) 0) m v]) /\
             same r (Ok PNone).
 Proof.
-  intros Hf Hc. destruct (policy_bytes ctrl) as [m v] eqn:E.
+  intros Sw Hf Hc. destruct (policy_bytes ctrl) as [m v] eqn:E.
   pose proof (table2 (fun c f => chk_policy f c) (nrange 256) (nrange 4) policy_table fru ctrl
                 (nrange_in 256 fru Hf) (nrange_in 4 ctrl Hc)) as C.
   cbv beta in C. unfold chk_policy in C. rewrite E in C. cbn [fst snd] in C.
-  exact (write_only "set_fru_activation_policy" _ s _ _ _ _ C (bmc_set_policy s fru m v)).
+  exact (write_only "set_fru_activation_policy" _ s _ _ _ _ Sw C (bmc_set_policy s fru m v)).
 Qed.
 
 (* ---- FRU LED state: override blinking, on, off, on a LED whose local state is the default ---- *)
@@ -120,10 +120,10 @@ Definition chk_led (x : N * N * N) (c : ledcase) : bool :=
   let '(fru, led, color) := x in
   let '(wf, wo) := led_wire c in
   let '(off, on_) := led_durs c in
-  exch_eqb (one_exchange "set_led_state" [("led", led_obj fru led color (led_fn c) off on_)] (RBytes [0; 0]))
+  exch_ok "set_led_state" [("led", led_obj fru led color (led_fn c) off on_)] (RBytes [0; 0])
            (mkReq 44 7 0 [0; fru; led; wf; wo; color]) (Ok PNone)
-  && exch_eqb (one_exchange "get_led_state" [arg "fru_id" fru; arg "led_id" led]
-                            (RBytes [0; 0; 3; 0; 0; 1; wf; wo; color]))
+  && exch_ok "get_led_state" [arg "fru_id" fru; arg "led_id" led]
+                            (RBytes [0; 0; 3; 0; 0; 1; wf; wo; color])
               (mkReq 44 8 0 [0; fru; led]) (Ok (led_result color (led_fn c) off on_)).
 
 Definition led_targets : list (N * N * N) := [(254, 255, 15)].
@@ -159,7 +159,7 @@ Proof.
     + destruct Hb as [<- | [<- | []]]; split; discriminate.
 Qed.
 
-Lemma write_read_led s fru led color c : List.In (fru, led, color) led_targets -> List.In c led_cases ->
+Lemma write_read_led s fru led color c : is_supported "set_led_state" = true -> is_supported "get_led_state" = true -> List.In (fru, led, color) led_targets -> List.In c led_cases ->
   get s (K_LED, fru, led) = [1; 0; 0; 1; 0; 0; 0; 0] ->        (* the LED is under local control, off, blue *)
   let s1 := put s (K_LED, fru, led) [3; 0; 0; 1; fst (led_wire c); snd (led_wire c); color; 0] in
   exists r1 r2,
@@ -168,7 +168,7 @@ Lemma write_read_led s fru led color c : List.In (fru, led, color) led_targets -
     call "get_led_state" [arg "fru_id" fru; arg "led_id" led] s1 = (r2, s1) /\
     same r2 (Ok (led_result color (led_fn c) (fst (led_durs c)) (snd (led_durs c)))).
 Proof.
-  intros Hx Hc Hs s1.
+  intros Sw Sr Hx Hc Hs s1.
   pose proof (table2 (fun c x => chk_led x c) led_targets led_cases led_table (fru, led, color) c Hx Hc) as C.
   cbv beta in C. unfold chk_led in C. unfold s1.
   destruct (led_wire_ok c Hc) as [N1 N2].
@@ -180,5 +180,5 @@ Proof.
   assert (BR : bmc_handle (put s (K_LED, fru, led) [3; 0; 0; 1; wf; wo; color; 0]) (mkReq 44 8 0 [0; fru; led]) =
                (put s (K_LED, fru, led) [3; 0; 0; 1; wf; wo; color; 0], RBytes [0; 0; 3; 0; 0; 1; wf; wo; color])).
   { apply (bmc_get_led_override _ fru led 0 0 1 wf wo color 0). apply get_put_same. }
-  exact (write_then_read "set_led_state" "get_led_state" _ _ s _ _ _ _ _ _ _ W BW R BR).
+  exact (write_then_read "set_led_state" "get_led_state" _ _ s _ _ _ _ _ _ _ Sw Sr W BW R BR).
 Qed.
